@@ -510,7 +510,7 @@ func (viso *VirtualISO) makeVolumeDescriptors(volumeName string) {
 		},
 		Primary: &primaryVolumeDescriptorBody{
 			SystemIdentifier:              mangleStrA(runtime.GOOS, false),
-			VolumeIdentifier:              mangleStrD(volumeName, false),
+			VolumeIdentifier:              mangleStrD(volumeName, false).truncate(32),
 			VolumeSpaceSize:               viso.volumeSizeSectors,
 			VolumeSetSize:                 1,
 			VolumeSequenceNumber:          1,
@@ -519,7 +519,7 @@ func (viso *VirtualISO) makeVolumeDescriptors(volumeName string) {
 			TypeLPathTableLoc:             pathTableLLBA,
 			TypeMPathTableLoc:             pathTableMLBA,
 			ApplicationIdentifier:         "ps3netsrv",
-			VolumeSetIdentifier:           mangleStrD(volumeName, false),
+			VolumeSetIdentifier:           mangleStrD(volumeName, false).truncate(128),
 			VolumeCreationDateAndTime:     volumeDescriptorTimestampFromTime(now),
 			VolumeModificationDateAndTime: volumeDescriptorTimestampFromTime(now),
 			FileStructureVersion:          1,
@@ -535,7 +535,7 @@ func (viso *VirtualISO) makeVolumeDescriptors(volumeName string) {
 		},
 		Primary: &primaryVolumeDescriptorBody{
 			SystemIdentifier:              mangleStrA(runtime.GOOS, true),
-			VolumeIdentifier:              mangleStrD(volumeName, true),
+			VolumeIdentifier:              mangleStrD(volumeName, true).truncate(32),
 			VolumeSpaceSize:               viso.volumeSizeSectors,
 			EscapeSequences:               "%/@",
 			VolumeSetSize:                 1,
@@ -545,7 +545,7 @@ func (viso *VirtualISO) makeVolumeDescriptors(volumeName string) {
 			TypeLPathTableLoc:             pathTableJolietLLBA,
 			TypeMPathTableLoc:             pathTableJolietMLBA,
 			ApplicationIdentifier:         "ps3netsrv",
-			VolumeSetIdentifier:           mangleStrD(volumeName, true),
+			VolumeSetIdentifier:           mangleStrD(volumeName, true).truncate(128),
 			VolumeCreationDateAndTime:     volumeDescriptorTimestampFromTime(now),
 			VolumeModificationDateAndTime: volumeDescriptorTimestampFromTime(now),
 			FileStructureVersion:          1,
